@@ -370,18 +370,22 @@ PROPS = {
         "level_text": "Theorems for every hash-primitive record, limits, EVERY defrag decision procedure, every partition of a file's chunk list into "
                       "process_chunks calls and every oracle with legal answers: total bytes/chunks = what was fed, new + deduplicated = total, "
                       "withheld <= new, pointer size = total bytes = file_size of the record (preserved by merge_in / finalize); session metrics = sum "
-                      "over files for every sequence of completions. The upload-byte clause (xorb_bytes_uploaded = sum of put returns, shard bytes = "
-                      "bytes handed to upload_shard, for the completion orders tokio produces) is checked on real sessions by the suite `session` "
-                      "(partial: tokio task timing is not modelled).",
+                      "over files for every sequence of completions. The upload-byte clause is a theorem over a byte-accounting layer on the C16 upload model "
+                      "(every history of registrations with any byte counts, completions in any order with any outcome, finalize at any point, any list "
+                      "of shards): the accumulator equals the bytes of the puts that returned Ok in every state, a successful finalize reports exactly "
+                      "the bytes of all puts / of all accepted shards / their sum, nothing is reported otherwise; taking the metrics before the join loop "
+                      "(the repaired defect F3) is refuted by a decided witness. Tied to the code by `up.bytes` histories of real sessions whose puts are "
+                      "held and released by the suite session_faults, with a store-side ledger as direct monitor, and by the upload monitors of `session` "
+                      "(partial: tokio JoinSet and the atomicity of one accumulator update are modelled).",
         "design_ref": "DESIGN.md section 4, C01..C11",
-        "technique": "Lean 4 proof (invariant over the history, induction on loop fuel) + differential correspondence (scripted FileDeduper and real sessions)",
-        "rule": "deduper: 70 [900] files per limit configuration (6 [12] configurations), chunk sequences fresh/mixed/fragmented (1 old : 1-3 fresh)/"
+        "technique": "Lean 4 proof (invariants over the deduper history and over the upload-task history, induction) + differential correspondence (scripted FileDeduper, real sessions, real sessions with held puts and injected upload faults)",
+        "rule": "session_faults: 5 configurations x 40 [600] scenarios with a byte history each (up.bytes); deduper: 70 [900] files per limit configuration (6 [12] configurations), chunk sequences fresh/mixed/fragmented (1 old : 1-3 fresh)/"
                 "self-repeating/long old runs, truthful-but-adversarial answers (any duplicate, shorter runs, misses), global-dedup second pass; "
                 "session: 5 [11] configurations x 2 [12] stores x 2-4 sessions x 1-5 files, sequential and interleaved cleaners, re-uploads; "
                 "distinct by hash of the op line; non-trivial = multi-call file / non-empty session",
         "assumptions": ["answers legal = count/bytes part of truthfulness (C05)",
                         "LensFunctionalChunks: equal chunk hash => equal length within one file (its failure is a data-hash collision)",
-                        "upload completion orders are those tokio produced in the runs, not all orders"],
+                        "the model covers all completion orders; the runs exercise those the suite scripts (random release orders, puts joined by finalize) and those tokio produced"],
     },
     "C15": {
         "modules": ["XetProps.C15"],
